@@ -474,6 +474,27 @@ func TestC07(t *testing.T) {
 			}
 		}
 	}
+	// observation only (the statement's two writer clauses contradict each other when the wall clock steps backwards, so
+	// nothing is judged): what the writer does with its timestamps when the clock goes back by one second
+	{
+		rw := &recWriter{}
+		fw := &frame.Writer{ByteWriter: rw, DialectRW: drw, OutVersion: frame.V2, OutSystemID: 1, OutKey: key}
+		_ = fw.Initialize()
+		_ = fw.WriteMessage(hbMsg)
+		a, _, _ := ref.ParseAt(rw.all(), 0)
+		frame.VerifShiftSignatureClock(-time.Second)
+		rw.reset()
+		_ = fw.WriteMessage(hbMsg)
+		b, _, _ := ref.ParseAt(rw.all(), 0)
+		frame.VerifShiftSignatureClock(time.Second)
+		if a != nil && b != nil {
+			if b.Timestamp < a.Timestamp {
+				rep.Observe("c07: when the wall clock is stepped backwards (1 s, through the verif clock hook) the timestamps of a keyed writer follow it and decrease on the link; not judged (the clock is outside the statement's quantifier)")
+			} else {
+				rep.Observe("c07: when the wall clock is stepped backwards (1 s, through the verif clock hook) the timestamps of a keyed writer do not decrease")
+			}
+		}
+	}
 	// writes packed around wall-clock second boundaries (a timestamp assembled from two clock readings breaks there)
 	{
 		type link struct {
